@@ -91,6 +91,12 @@ WAL_RULE = (" WAL runs: generated entry sequences (0..many entries, clears and u
             "byte with the Lean encoder — and the REAL WalBlobReader — entries / error verdict compared with the Lean reader — plus 12 malformed kinds (truncated, bad tag, padding bits set, empty, "
             "garbage after END); PageDiff operations (set / join / pack / unpack / from_bytes); `recover`: the real bitbox DB::open on generated hash-table files and WALs (incl. partial write-outs, stale "
             "and corrupt logs) vs the Lean redo. Oracles: decode(encode x) = x on the real code, blob length a page multiple, redo reproduces the intended page, redo twice = once.")
+# overlay index / value / value_iter on chains built from explicit change maps, the real BeatreeIterator on hand-built leaves and the
+# overlay / disk merges of seek through real sessions (hook H6) against the Lean mirrors (driver mode `ovl`)
+OVL_RUN = {"cmd": "overlay-index", "mode": "ovl", "cases": {"quick": 400, "thorough": 4000}, "shards": {"quick": 4, "thorough": 16}}
+OVL_RULE = (" overlay-index: 5/8 overlay-chain cases (chains of 0..8 overlays over a dense key universe built from explicit change maps with the REAL Overlay / LiveOverlay: ancestor lists exact / short / long / "
+            "wrong / reordered, commits and drops of ancestors, lookups of every key and value_iter over ranges whose bounds are on, just below and just above keys), 2/8 BeatreeIterator cases (staging maps merged "
+            "with hand-built leaves), 1/8 real-store seek cases (overlay insertions / deletions merged with on-disk leaves, read off real path proofs); every answer vs the Lean mirror and vs BTreeMap folds.")
 IMG_RUN = {"cmd": "image", "mode": "image", "cases": {"quick": 24, "thorough": 400}, "shards": {"quick": 8, "thorough": 16}}
 # directed replay (corpus): history 18 of image seed 1000 — 1616 fat-valued keys, half of them under a 200-bit common prefix;
 # the commit that splits the branch node writes a separator whose last bit is lost (see KNOWN finding candidate F13 in the report)
@@ -197,10 +203,10 @@ PROPS = {
         "trusted_base": API_TB, "assumptions": API_ASSUME,
     },
     "C05": {
-        "lines": ['prove', 'pshash', 'psnext', 'psalloc', 'pslookup'],
+        "lines": ['prove', 'pshash', 'psnext', 'psalloc', 'pslookup', 'iter', 'bti', 'leaffetch', 'seeknode'],
         "tags": ['C05'],
-        "runs": DB_SCRIPT(["script-elision-threshold"]) + [DB("kv", 120, 1200, nops=14), DB("overlay", 80, 800, nops=14), DB("overlay", 120, 1200, nops=16, big=True), DB("reopen", 60, 600, nops=14), DB("kv", 4, 40, nops=14, scale=100, shards_q=4), dict(ALLOC_PROBE), dict(ALLOC_LOOKUP)],
-        "rule": DB_RULE + " C05: Session::prove for present keys, absent keys diverging from a present key at interesting depths (page boundaries 6k-1..6k+1, just below the terminal, 246..255) and random keys, on plain / overlay sessions, cold caches after reopen; the proof object must equal the Lean proveSpec (terminal + every sibling) and verify + confirm the session's view with the real verifier.",
+        "runs": DB_SCRIPT(["script-elision-threshold"]) + [DB("kv", 120, 1200, nops=14), DB("overlay", 80, 800, nops=14), DB("overlay", 120, 1200, nops=16, big=True), DB("reopen", 60, 600, nops=14), DB("kv", 4, 40, nops=14, scale=100, shards_q=4), dict(ALLOC_PROBE), dict(ALLOC_LOOKUP), dict(OVL_RUN)],
+        "rule": DB_RULE + OVL_RULE + " C05: Session::prove for present keys, absent keys diverging from a present key at interesting depths (page boundaries 6k-1..6k+1, just below the terminal, 246..255) and random keys, on plain / overlay sessions, cold caches after reopen; the proof object must equal the Lean proveSpec (terminal + every sibling) and verify + confirm the session's view with the real verifier.",
         "trusted_base": API_TB, "assumptions": API_ASSUME,
     },
     "C09": {
@@ -212,10 +218,11 @@ PROPS = {
         "trusted_base": API_TB, "assumptions": API_ASSUME + ["segment roll-over and pruning of the rollback log are reached through the cfg(nomt_verif) segment-size override (8 KiB segments); the 64 MiB default is not reached by quick runs"],
     },
     "C11": {
-        "lines": ['begin', 'read', 'prove', 'finish', 'overlay', 'ocommit', 'otrycommit', 'root', 'odrop', 'sdrop', 'dread'],
+        "lines": ['begin', 'read', 'prove', 'finish', 'overlay', 'ocommit', 'otrycommit', 'root', 'odrop', 'sdrop', 'dread',
+                  'live', 'val', 'page', 'commit', 'drop', 'dropl', 'pstatus', 'reset', 'seeknode', 'iter'],
         "tags": ['C11', 'C01', 'C02', 'C05'],
-        "runs": DB_SCN(["rejected-overlay-marks-committed"]) + [DB("overlay", 200, 2000, nops=18), DB("general", 60, 600, nops=16)],
-        "rule": DB_RULE + " C11 focus: overlay trees (chains, sibling forks, dropped and committed ancestors), sessions on every live fork, wrong / incomplete / reordered ancestor lists, in-order and out-of-order overlay commits.",
+        "runs": DB_SCN(["rejected-overlay-marks-committed"]) + [DB("overlay", 200, 2000, nops=18), DB("general", 60, 600, nops=16), dict(OVL_RUN)],
+        "rule": DB_RULE + OVL_RULE + " C11 focus: overlay trees (chains, sibling forks, dropped and committed ancestors), sessions on every live fork, wrong / incomplete / reordered ancestor lists, in-order and out-of-order overlay commits.",
         "trusted_base": API_TB, "assumptions": API_ASSUME,
     },
     "C12": {
